@@ -44,6 +44,9 @@ Expected(v, L, d) ==
     [] d.k = "finthenmore" -> \* FIN at d.fin, then data up to d.end > d.fin in the same packet
          LET ie == RecvIdError(v, L, d.id, opened) IN
          IF ie # 0 THEN ie ELSE IF d.end > d.fin THEN 6 ELSE 0
+    [] d.k = "morethenfin" -> \* data up to d.end, then a FIN that puts the final size at d.fin < d.end (RFC 9000 4.5)
+         LET ie == RecvIdError(v, L, d.id, opened) IN
+         IF ie # 0 THEN ie ELSE IF d.end > d.fin THEN 6 ELSE 0
     [] d.k = "stop" ->       \* STOP_SENDING: refers to the victim's sending half
          IF Initiator(d.id) # v THEN (IF IsUni(d.id) THEN 5 ELSE 0)
          ELSE IF Index(d.id) >= opened THEN 5 ELSE 0
